@@ -1,7 +1,7 @@
 """C19 - the whole-project build plan orders every analysis after the stubs it reads.
 
 1. TLC model-checks BuildPlan.tla: every import structure within the bounds (graph nodes = SCCs
-   of 1..MaxGroup files, kinds Local/Direct/System/Builtin/Stub, any requested subset, every
+   of 1..MaxGroup files, kinds Local/Direct/System/Builtin/Stub/SysExt, any requested subset, every
    order of the out-edges) is planned by the model of deps_from_import_graph + setup_build and
    executed by the model of ninja under every schedule: NoReadBeforeWrite, NeverStuck, StaticOK.
 2. code -> spec (decisive): every structure TLC exports is handed to the REAL
